@@ -366,13 +366,18 @@ def _guarded_unwrap(body, i, t):
         if tt["k"] != "switch":
             continue
         zero = [bb for v, bb in tt["targets"] if v == 0]
-        if s in zero:
-            continue
+        on_true = s not in zero
         for o in body.origins(tt["discr"]):
-            if o[0] == "call" and (callee_path(o[2]) or "") in ("core::option::Option::is_some", "core::result::Result::is_ok") and o[2]["args"]:
-                a = o[2]["args"][0]
-                if a["k"] in ("copy", "move") and body.root_of_place(a["p"])[0] == r:
-                    return True
+            if o[0] != "call" or not o[2]["args"]:
+                continue
+            cpo = callee_path(o[2]) or ""
+            a = o[2]["args"][0]
+            same = a["k"] in ("copy", "move") and body.root_of_place(a["p"])[0] == r
+            # reached on the true arm of is_some()/is_ok(), or on the false arm of is_none()/is_err() (early `return` form)
+            if same and on_true and cpo in ("core::option::Option::is_some", "core::result::Result::is_ok"):
+                return True
+            if same and not on_true and cpo in ("core::option::Option::is_none", "core::result::Result::is_err"):
+                return True
     return False
 
 
